@@ -13,6 +13,8 @@
    Ownership facts that Rust's type system enforces (a call on a handle needs the handle; calls of
    one handle happen in program order) appear as guards: a step whose guard fails is blocked.
 
+   begin_read is the retry loop introduced by the fix of finding F1 (redb commit 2256ac3).
+
    Idealisation (trusted, see design.d/C03.md): every mutex-protected section is one atomic step,
    memory is sequentially consistent, the nested read of the header inside T.register_read is part
    of that section, and page contents are abstracted to a payload tag per committed version. *)
@@ -163,7 +165,7 @@ Inductive call :=
 | DropDb.
 
 Inductive step :=
-| TRegisterRead | MGetDataRootR | TDeallocRead
+| TRegisterRead | MGetDataRootR | TDeallocRead | TDeallocReadRetry
 | TStartWrite | MAllocLoaded | MGetDataRootW | MGetSystemRoot
 | TAnySavepoint
 | TOldestLiveReadC | XDurableHorizon | TOldestSavepoint | MCommitBegin | IoSync | UClear | MCommitPublish
@@ -179,7 +181,7 @@ Definition name_of (s : step) : string :=
   match s with
   | TRegisterRead | TRegisterReadS => "T.register_read"
   | MGetDataRootR | MGetDataRootW | MGetDataRootS => "M.get_data_root"
-  | TDeallocRead | TDeallocReadS => "T.dealloc_read"
+  | TDeallocRead | TDeallocReadS | TDeallocReadRetry => "T.dealloc_read"
   | TStartWrite => "T.start_write"
   | MAllocLoaded => "M.alloc_loaded"
   | MGetSystemRoot => "M.get_system_root"
@@ -302,10 +304,24 @@ Definition exec (t : nat) (c : call) (x : step) (s : st) : option (st * list ste
     | _ => None
     end
   | MGetDataRootR =>
+    (* id and root are read under one lock; begin_read keeps the registration only if it is the id of this root,
+       otherwise it drops the guard (T.dealloc_read) and registers again *)
     match c with
     | BeginRead r =>
       match aget r (readers s) with
-      | Some rs => ok (set_readers s (aset r {| r_reg := r_reg rs; r_root := Some (latest s); r_pubs := List.length (hist s) |} (readers s)))
+      | Some rs =>
+        if N.eqb (fst (latest s)) (r_reg rs) then
+          ok (set_readers s (aset r {| r_reg := r_reg rs; r_root := Some (latest s); r_pubs := List.length (hist s) |} (readers s)))
+        else Some (s, [TDeallocReadRetry; TRegisterRead; MGetDataRootR])
+      | None => None
+      end
+    | _ => None
+    end
+  | TDeallocReadRetry =>
+    match c with
+    | BeginRead r =>
+      match aget r (readers s) with
+      | Some rs => ok (set_readers (set_live_reads s (remove_one (r_reg rs) (live_reads s))) (adel r (readers s)))
       | None => None
       end
     | _ => None
